@@ -206,3 +206,94 @@ Definition run_candidate (inp : list N) : list N :=
     end
   | _ => []
   end.
+
+(* ---------------------------------------------------------------- sessions with a failing stable store (component 1401)
+   The same loop with a failure oracle per stage (entering, and each event): the bits are consumed by the
+   durable operations of that stage in program order (setCurrentTerm, then persistVote's two writes), what is
+   left over is dropped.  sess_enter / sess_step above are these functions with empty oracles; they are kept
+   as they are because the proofs speak about them. *)
+Fixpoint feed_self_f (P : params) (fuel : nat) (s : nstate) (c : cand) (self : list vresult) (tr : list ev) (fs : list bool)
+  : csess * list ev :=
+  match fuel, self with
+  | _, [] => (SCand s c, tr)
+  | O, _ => (SCand s c, tr)
+  | S f, v :: rest =>
+    let o := if c_prevote c then on_prevote P c s fs v else on_vote P c s fs v in
+    match o with
+    | Done s' (CStay c' self') tr' fs' => feed_self_f P f s' c' (rest ++ self') (tr ++ tr') fs'
+    | Done s' CFollower tr' _ => (SFollower s', tr ++ tr')
+    | Done s' CLeader tr' _ => (SLeader s', tr ++ tr')
+    | Panic s' tr' => (SDead s', tr ++ tr')
+    end
+  end.
+
+Definition sess_enter_f (P : params) (prevoteOn : bool) (s : nstate) (fs : list bool) : csess * list ev :=
+  match cand_enter P prevoteOn (set_state s Candidate) fs with
+  | Done s' (c, self) tr fs' => exit_loop (feed_self_f P 4 s' c self tr fs')
+  | Panic s' tr => (SDead s', tr)
+  end.
+
+Definition sess_step_f (P : params) (prevoteOn : bool) (x : csess) (e : cev) (fs : list bool) : csess * list ev :=
+  match x with
+  | SCand s c =>
+    match e with
+    | CTimeout => sess_enter_f P prevoteOn (set_transfer s false) fs
+    | CPre v =>
+      match on_prevote P c s fs v with
+      | Done s' (CStay c' self) tr fs' => exit_loop (feed_self_f P 4 s' c' self tr fs')
+      | Done s' CFollower tr _ => (SFollower (set_transfer s' false), tr)
+      | Done s' CLeader tr _ => (SLeader (set_transfer s' false), tr)
+      | Panic s' tr => (SDead s', tr)
+      end
+    | CVote v =>
+      match on_vote P c s fs v with
+      | Done s' (CStay c' self) tr fs' => exit_loop (feed_self_f P 4 s' c' self tr fs')
+      | Done s' CFollower tr _ => (SFollower (set_transfer s' false), tr)
+      | Done s' CLeader tr _ => (SLeader (set_transfer s' false), tr)
+      | Panic s' tr => (SDead s', tr)
+      end
+    end
+  | _ => (x, [])
+  end.
+
+Definition dec_fbits (l : list N) : list bool * list N :=
+  match l with
+  | n :: r => (map n2b (firstn (N.to_nat n) r), skipn (N.to_nat n) r)
+  | [] => ([], [])
+  end.
+
+(* events: 1 t g nf f.. | 2 t g nf f.. | 3 nf f.. *)
+Fixpoint sess_trace_f (P : params) (prevoteOn : bool) (fuel : nat) (x : csess) (l : list N) : list N :=
+  match fuel with
+  | O => []
+  | S f =>
+    let go := fun (e : cev) (r : list N) =>
+      let '(fs, r') := dec_fbits r in
+      let '(x', tr) := sess_step_f P prevoteOn x e fs in
+      enc_sess x' ++ flat_map enc_stable_ev tr ++ [99] ++ sess_trace_f P prevoteOn f x' r' in
+    match l with
+    | 1 :: t :: g :: r => go (CPre (mkVR t (n2b g))) r
+    | 2 :: t :: g :: r => go (CVote (mkVR t (n2b g))) r
+    | 3 :: r => go CTimeout r
+    | _ => []
+    end
+  end.
+
+(* component 1401: as component 14, with the failure bits of the entering stage after the image and
+   the bits of each event after it *)
+Definition run_candidate_f (inp : list N) : list N :=
+  match inp with
+  | self :: pv :: tr :: r0 =>
+    let '(cfg, r1) := dec_config r0 in
+    match r1 with
+    | term :: vterm :: vcand :: li :: lt :: r2 =>
+      let P := mkP self false false false 100 4 (fun _ => cfg) in
+      let s := mkNS term vterm (if vcand =? 0 then None else Some (vcand - 1)) ∅ 0 0 []
+                    Follower term 0 0 li lt 0 0 cfg 1 cfg 1 0 0 (n2b tr) [] (0, 0) in
+      let '(fs0, r3) := dec_fbits r2 in
+      let '(x0, tr0) := sess_enter_f P (n2b pv) s fs0 in
+      enc_sess x0 ++ flat_map enc_stable_ev tr0 ++ [99] ++ sess_trace_f P (n2b pv) (length r3) x0 r3
+    | _ => []
+    end
+  | _ => []
+  end.
